@@ -51,6 +51,10 @@ def one(case):
         ts = local
     elif rep == "iso":
         ts = local.isoformat()
+        if us % 100000 == 0 and us:
+            ts = ts.replace(".%06d" % us, ".%d" % (us // 100000))        # one fractional digit
+        elif us % 1000 == 0 and us:
+            ts = ts.replace(".%06d" % us, ".%03d" % (us // 1000))        # millisecond precision
     elif rep == "isoZ":
         # only meaningful for offset 0: write the trailing Z
         ts = local.replace(tzinfo=None).isoformat() + "Z"
@@ -105,7 +109,7 @@ def rand_case(rnd, us=None, rep=None):
     # day 0 with a positive offset is a 1970 timestamp whose instant lies before the epoch: inside the property's range
     s = rnd.choice([0, 1, 59, 3599, 43200, 86399, rnd.randrange(0, 86400)])
     if us is None:
-        us = rnd.choice([0, 1, 999, 1000, 1001, 499999, 500000, 999000, 999999, rnd.randrange(0, 1000000)])
+        us = rnd.choice([0, 1, 999, 1000, 1001, 499999, 500000, 700000, 123000, 999000, 999999, rnd.randrange(0, 1000000)])
     dkind = rnd.choice(["int", "float", "timedelta"])
     dneg = rnd.random() < 0.1
     ds = rnd.choice([0, 1, 59, 86399, 86400, 2591999, rnd.randrange(0, 2592000)])
